@@ -42,7 +42,7 @@ const U_ITEMS: &[&str] = &["\u{1}-\u{10FFFF}", "\u{0}-\u{10FFFE}", "ƻ-Ƽ", "ƹ-
 const V_LEAVES: &[&str] = &["\u{1}-\u{10FFFF}", "\u{0}-\u{10FFFE}", "ƻ-Ƽ", "ƹ-Ƽ", "a", "b", "k", "K", "C", "\\-", "\\&", "a-c", "A-C", "\\d", "\\w", "\\W", "\\s", "é", "\\u212A", "ſ", "\\p{Lu}", "\\P{Lu}", "\\q{ab|a|}", "\\q{k}", "\\q{}", "\\q{AB}", "\\q{C}"];
 const V_SMALL: &[&str] = &["a", "k", "K", "a-c", "\\w", "\\W", "\\p{Lu}", "\\q{ab|a}", "ſ", "\\q{}"];
 
-fn build(cfg: &Cfg) -> Vec<(String, Flags)> {
+pub fn build(cfg: &Cfg) -> Vec<(String, Flags)> {
     let mut out: Vec<(String, Flags)> = Vec::new();
     let f = |s: &str| Flags::from_str(s);
     let depth3 = !cfg.quick();
